@@ -72,27 +72,32 @@ func (ex *Exec) intrinsic(fn *ssa.Function, args []Value) (Value, bool) {
 	case "reflect.TypeOf":
 		return Iface{}, true
 	case "sync/atomic.LoadUint32", "sync/atomic.LoadInt32", "sync/atomic.LoadInt64", "sync/atomic.LoadUint64", "sync/atomic.LoadUintptr":
-		return ex.load(args[0], fn.Signature.Results().At(0).Type()), true
+		ex.atomicSync(args[0])
+		return ex.loadNoRace(args[0], fn.Signature.Results().At(0).Type()), true
 	case "sync/atomic.StoreUint32", "sync/atomic.StoreInt32", "sync/atomic.StoreInt64", "sync/atomic.StoreUint64":
-		ex.store(args[0], args[1], nil)
+		ex.atomicSync(args[0])
+		ex.storeNoRace(args[0], args[1])
 		return nil, true
 	case "sync/atomic.AddUint32", "sync/atomic.AddInt32", "sync/atomic.AddInt64", "sync/atomic.AddUint64":
 		t := fn.Signature.Results().At(0).Type()
-		n := c.Add(ex.load(args[0], t).(*term.T), args[1].(*term.T))
-		ex.store(args[0], n, nil)
+		ex.atomicSync(args[0])
+		n := c.Add(ex.loadNoRace(args[0], t).(*term.T), args[1].(*term.T))
+		ex.storeNoRace(args[0], n)
 		return n, true
 	case "sync/atomic.CompareAndSwapUint32", "sync/atomic.CompareAndSwapInt32", "sync/atomic.CompareAndSwapInt64", "sync/atomic.CompareAndSwapUint64":
 		t := fn.Signature.Params().At(1).Type()
-		cur := ex.load(args[0], t).(*term.T)
+		ex.atomicSync(args[0])
+		cur := ex.loadNoRace(args[0], t).(*term.T)
 		if ex.Branch(c.Eq(cur, args[1].(*term.T))) {
-			ex.store(args[0], args[2], nil)
+			ex.storeNoRace(args[0], args[2])
 			return c.True, true
 		}
 		return c.False, true
 	case "sync/atomic.SwapUint32", "sync/atomic.SwapInt32", "sync/atomic.SwapInt64", "sync/atomic.SwapUint64":
 		t := fn.Signature.Results().At(0).Type()
-		cur := ex.load(args[0], t)
-		ex.store(args[0], args[1], nil)
+		ex.atomicSync(args[0])
+		cur := ex.loadNoRace(args[0], t)
+		ex.storeNoRace(args[0], args[1])
 		return cur, true
 	case "unicode/utf8.Valid", "unicode/utf8.ValidString":
 		return nil, false
@@ -251,6 +256,41 @@ func (ex *Exec) vfCall(name string, args []Value) Value {
 		return c.Ite(args[0].(*term.T), args[1].(*term.T), args[2].(*term.T))
 	case "Done":
 		return nil
+	case "Go":
+		ex.spawn(args[0])
+		return nil
+	case "Join":
+		ex.join()
+		return nil
+	case "SyncPoint":
+		ex.syncPoint()
+		return nil
+	case "Block":
+		ex.block(str(args[0]))
+		return nil
+	case "ThreadID":
+		return ex.constInt(int64(ex.cur))
+	case "Acquire":
+		if p, ok := args[0].(Iface); ok {
+			if pp, ok := p.V.(Ptr); ok {
+				ex.acquire(pp.Loc)
+			}
+		}
+		return nil
+	case "Release":
+		if p, ok := args[0].(Iface); ok {
+			if pp, ok := p.V.(Ptr); ok {
+				ex.release(pp.Loc)
+			}
+		}
+		return nil
+	case "RaceCheck":
+		ex.raceCheck = args[0].(*term.T).IsTrue()
+		return nil
+	case "MaxSwitches":
+		ex.maxSwitches = int(ex.concreteInt(args[0].(*term.T), "max switches"))
+		noteBound(ex.harness+".context-switches", int64(ex.maxSwitches))
+		return nil
 	case "Snapshot":
 		sl := args[0].(Slice)
 		loc := new(Value)
@@ -284,4 +324,28 @@ func (ex *Exec) vfCall(name string, args []Value) Value {
 	}
 	ex.unsupported("vf intrinsic " + name)
 	return nil
+}
+
+// atomicSync: an atomic operation synchronises with the previous atomic operation on the same address.
+func (ex *Exec) atomicSync(p Value) {
+	if pp, ok := p.(Ptr); ok && pp.Loc != nil && len(ex.threads) > 1 {
+		key := [2]interface{}{"atomic", pp.Loc}
+		ex.acquire(key)
+		ex.release(key)
+	}
+}
+
+func (ex *Exec) loadNoRace(p Value, t types.Type) Value {
+	saved := ex.raceCheck
+	ex.raceCheck = false
+	v := ex.load(p, t)
+	ex.raceCheck = saved
+	return v
+}
+
+func (ex *Exec) storeNoRace(p Value, v Value) {
+	saved := ex.raceCheck
+	ex.raceCheck = false
+	ex.store(p, v, nil)
+	ex.raceCheck = saved
 }
